@@ -182,6 +182,47 @@ impl<K: Eq + Hash, V, S> DashMap<K, V, S> {
         }
     }
 
+    /// non-blocking variants: `Locked` when another logical thread holds a conflicting guard
+    pub fn try_get<Q>(&self, key: &Q) -> try_result::TryResult<mapref::one::Ref<'_, K, V, S>> where K: Borrow<Q>, Q: Hash + Eq + ?Sized {
+        vs::schedule_point(vs::S_MAP_OP);
+        if self.st().lock.writer != 0 { return try_result::TryResult::Locked; }
+        vs::acquire_shared(&mut self.st().lock, true);
+        let idx = self.find(key);
+        if idx < CAP { try_result::TryResult::Present(mapref::one::Ref { map: self, idx }) }
+        else { vs::release_shared(&mut self.st().lock); try_result::TryResult::Absent }
+    }
+    pub fn try_get_mut<Q>(&self, key: &Q) -> try_result::TryResult<mapref::one::RefMut<'_, K, V, S>> where K: Borrow<Q>, Q: Hash + Eq + ?Sized {
+        vs::schedule_point(vs::S_MAP_OP);
+        if self.vk_locked() { return try_result::TryResult::Locked; }
+        vs::acquire_exclusive(&mut self.st().lock);
+        let idx = self.find(key);
+        if idx < CAP { try_result::TryResult::Present(mapref::one::RefMut { map: self, idx }) }
+        else { vs::release_exclusive(&mut self.st().lock); try_result::TryResult::Absent }
+    }
+    pub fn remove_if<Q>(&self, key: &Q, f: impl FnOnce(&K, &V) -> bool) -> Option<(K, V)> where K: Borrow<Q>, Q: Hash + Eq + ?Sized {
+        vs::schedule_point(vs::S_MAP_OP);
+        vs::acquire_exclusive(&mut self.st().lock);
+        let idx = self.find(key);
+        let st = self.st();
+        let r = if idx < CAP && f(unsafe { st.keys[idx].assume_init_ref() }, unsafe { st.vals[idx].assume_init_ref() }) {
+            st.used[idx] = false;
+            Some(unsafe { (st.keys[idx].assume_init_read(), st.vals[idx].assume_init_read()) })
+        } else { None };
+        vs::release_exclusive(&mut self.st().lock);
+        r
+    }
+    pub fn retain(&self, mut f: impl FnMut(&K, &mut V) -> bool) {
+        vs::schedule_point(vs::S_MAP_OP);
+        vs::acquire_exclusive(&mut self.st().lock);
+        let st = self.st();
+        let mut i = 0;
+        while i < CAP {
+            if st.used[i] && !f(unsafe { st.keys[i].assume_init_ref() }, unsafe { st.vals[i].assume_init_mut() }) { st.used[i] = false; }
+            i += 1;
+        }
+        vs::release_exclusive(&mut self.st().lock);
+    }
+
     pub fn clear(&self) {
         vs::schedule_point(vs::S_MAP_OP);
         vs::acquire_exclusive(&mut self.st().lock);
@@ -198,6 +239,17 @@ impl<K: Eq + Hash, V, S> DashMap<K, V, S> {
         vs::schedule_point(vs::S_MAP_OP);
         vs::acquire_shared(&mut self.st().lock, false);
         iter::Iter { map: self, next: 0 }
+    }
+}
+
+pub mod try_result {
+    pub enum TryResult<R> { Present(R), Absent, Locked }
+    impl<R> TryResult<R> {
+        pub fn is_present(&self) -> bool { matches!(self, TryResult::Present(_)) }
+        pub fn is_absent(&self) -> bool { matches!(self, TryResult::Absent) }
+        pub fn is_locked(&self) -> bool { matches!(self, TryResult::Locked) }
+        pub fn unwrap(self) -> R { match self { TryResult::Present(r) => r, _ => panic!("TryResult::unwrap on Absent/Locked") } }
+        pub fn try_unwrap(self) -> Option<R> { match self { TryResult::Present(r) => Some(r), _ => None } }
     }
 }
 
